@@ -34,6 +34,40 @@ struct Log {
     std::vector<double> raw_x;         // exact coordinates passed to the model, in call order
 };
 
+
+template <TasGrid::RuleLocal::erule er> bool completeHierarchyT(const TasmanianSparseGrid &g) {
+    int d = g.getNumDimensions(), n = g.getNumLoaded();
+    const int *idx = g.getPointsIndexes();
+    std::set<std::vector<int>> have;
+    for (int i = 0; i < n; i++) have.insert(std::vector<int>(idx + (size_t)i * d, idx + (size_t)(i + 1) * d));
+    for (int i = 0; i < n; i++) {
+        std::vector<int> p(idx + (size_t)i * d, idx + (size_t)(i + 1) * d);
+        for (int k = 0; k < d; k++) {
+            int save = p[k];
+            int a = TasGrid::RuleLocal::getParent<er>(save), b = TasGrid::RuleLocal::getStepParent<er>(save);
+            if (a > -1) { p[k] = a; if (!have.count(p)) return false; }
+            if (a == -2) { for (int r = 0; r < TasGrid::RuleLocal::getNumPoints<er>(0); r++) { p[k] = r; if (!have.count(p)) return false; } }
+            if (b > -1) { p[k] = b; if (!have.count(p)) return false; }
+            p[k] = save;
+        }
+    }
+    return true;
+}
+// C01 promises nodal reproduction (and C09 order independence) for local polynomial grids only when every loaded point has all of its
+// hierarchical parents loaded; the surrogate oracle of C18 is applied to those grids only (others: values are still compared exactly)
+bool completeHierarchy(const TasmanianSparseGrid &g) {
+    using TasGrid::RuleLocal::erule;
+    TasGrid::TypeOneDRule r = g.getRule(); int order = g.getOrder();
+    erule er = TasGrid::RuleLocal::getEffectiveRule(order, (r == TasGrid::rule_semilocalp && order < 2) ? TasGrid::rule_localp : r);
+    switch (er) {
+    case erule::pwc: return completeHierarchyT<erule::pwc>(g);
+    case erule::localp: return completeHierarchyT<erule::localp>(g);
+    case erule::semilocalp: return completeHierarchyT<erule::semilocalp>(g);
+    case erule::localp0: return completeHierarchyT<erule::localp0>(g);
+    default: return completeHierarchyT<erule::localpb>(g);
+    }
+}
+
 simrt::Config schedConfig(const Json &s) {
     simrt::Config c;
     c.seed = (uint64_t)s.geti("seed", 1);
@@ -302,6 +336,9 @@ public:
                 }
                 // the surrogate equals the one obtained by delivering the same samples to a copy of the start grid in one batch, sequentially
                 // (nodal exactness itself is pure numerics and not demanded here: e.g. boundary wavelets under a domain transform miss it by rounding of the transform)
+                bool comparable = !grid.isLocalPolynomial() || completeHierarchy(grid);
+                if (!comparable) st.inc("note.surrogate_oracle_skipped_incomplete_hierarchy");
+                else {
                 TasmanianSparseGrid ref; ref.copyGrid(start);
                 if (!ref.isUsingConstruction()) ref.beginConstruction();
                 std::vector<double> ax, ay;
@@ -313,6 +350,7 @@ public:
                 for (size_t i = 0; i < ev.size(); i++) if (!(std::fabs(ev[i] - rv[i]) <= 1e-9 * scale)) {
                     out.fail("surrogate", "C18/surrogate-mismatch/construct", "the final surrogate differs from the one built sequentially from the same samples at loaded point " + std::to_string(i / (size_t)outs) + " (" + std::to_string(ev[i]) + " vs " + std::to_string(rv[i]) + ")"); return out;
                 }
+            }
             }
             // nothing returned by the model may be lost: all called points are loaded or (not admissible yet) still parked; loaded ones must be a subset of called + preloaded
             if (nl > 0) {
